@@ -255,7 +255,8 @@ WidenedRejected(t, v) ==
   t.k \in {"compact", "bigint"} => \A w \in ScCompactWidened(v) : LET r == ScDec(t, w) IN ~r.ok /\ r.why \in {"noncanonical", "range"}
 (* the encoder is injective on the value universe of a type (distinct values, distinct bytes) *)
 Injective == LET t == part IN \A i, j \in 1..Len(ValSeq(t)) :
-               ValSeq(t)[i] # ValSeq(t)[j] => ScEnc(t, ValSeq(t)[i]) # ScEnc(t, ValSeq(t)[j])
+               \* (values are only compared when the bytes agree: TLC cannot compare values of different shapes)
+               ScEnc(t, ValSeq(t)[i]) = ScEnc(t, ValSeq(t)[j]) => ValSeq(t)[i] = ValSeq(t)[j]
 (* tag order: encoding order is a permutation of the declared fields *)
 OrderIsPerm == LET t == part IN t.k = "struct" =>
                  LET o == ScFieldOrder(t.tags) IN Len(o) = Len(t.fs) /\ ScRangeOf(o) = 1..Len(t.fs)
